@@ -250,6 +250,10 @@ def all_cases(tier, seed):
 
 
 def run(tier, seed, rep):
+    # histories of public API calls and device changes on one object, then probes of the API-level properties
+    from .. import api_sessions
+    _api = api_sessions.explore(tier, seed, {'C15'})
+    rep.add_many([v for v in _api['violations'] if v['prop'] == 'C15'])
     cases = all_cases(tier, seed)
     k = 64
     chunks = [cases[i::k] for i in range(k)]
@@ -299,7 +303,8 @@ def run(tier, seed, rep):
     for v, cnt in best.values():
         v['n'] = cnt
         rep.add_many([v])
-    cov = dict(states=len(states), transitions=total * 4, executions=total, traces_validated_against_impl=total,
+    cov = dict(api_session_histories=_api['histories'], api_session_states=_api['states'],
+               states=len(states), transitions=total * 4, executions=total, traces_validated_against_impl=total,
                configurations=total, dynamic_histories=ndyn, distinct_outcome_classes=len(ocs),
                outcome_classes={str(k): v for k, v in sorted(ocs.items(), key=str)[:30]}, exhaustive=True,
                bound=('every ET/DT/ES model tag' if tier == 'thorough' else 'one ET tag per predicate class, every DT/ES tag') +
@@ -314,6 +319,11 @@ def run(tier, seed, rep):
 
 
 def replay(r):
+    if r.get('part') == 'api-session':
+        from .. import api_sessions
+        out = api_sessions.replay(r)
+        out['violations'] = [m for m in out['violations'] if m[0] == 'C15']
+        return out
     cfg = r['cfg']
     cfg['refused'] = tuple(cfg['refused'])
     if 'changes' in r:
